@@ -61,6 +61,8 @@ def threshold(t, rows):
 
 def run(ctx):
     model = ctx.model
+    shared.r_collation(ctx, "R05.exact", ('mailbox_sides', 'nameplate_sides'),
+                       'a third side whose string differs only in case is taken for one of the two')
     shared.r_durable(ctx, "R05.durable", ("chan",),
                      'after a restart the side records the crowd check counts are not the ones the clients were answered from')
     shared.r_startup(ctx, "R05.startup", ('mailbox_sides', 'nameplate_sides'),
